@@ -251,6 +251,9 @@ def run_worker_stage(binary, st, prop, tier, seed, outdir):
             base += ["--cases", str(st["cases"][tier])]
         env = miri_env() if st["profile"] == "miri" else dict(BASE_ENV)
         env.update(st.get("env", {}))
+        if st["profile"] == "miri":
+            # a different scheduler seed per shard and VERIF_SEED: more thread interleavings
+            env["MIRIFLAGS"] = env.get("MIRIFLAGS", "") + f" -Zmiri-seed={seed * 100 + i} -Zmiri-preemption-rate=0.05"
         cwd = HARNESS if st["profile"] == "miri" else None
         for attempt in range(6):
             for f in (out, prog):
